@@ -621,7 +621,9 @@ def default_dims(rng):
     d["hook_skips"] = rng.random() < 0.1
     d["autoretry"] = rng.random() < 0.08
     if d["autoretry"]:
-        d["outcomes"] = [o for o in d["outcomes"] if o != "kbi"]
+        # an interrupt or a skip() persists across attempts (unspecified territory)
+        d["outcomes"] = [o for o in d["outcomes"] if o not in ("kbi", "skip")]
+        d["hook_skips"] = False
         if "before_feature" not in d["hooks"]:
             d["hooks"].append("before_feature")
     d["continue_after_failed"] = rng.random() < 0.05
